@@ -99,6 +99,9 @@ type pathRes struct {
 	url    bool     // rendered as a URL block (else a path-bearing method)
 	decl   []string // parameter names this resource's Path directive declares (subset of the parameters of its path)
 	values map[string]string
+	// typeRef: when set, the Path body is written as a bare reference to this user type (declared once, after the
+	// resources); resources that declare the same names share ONE type
+	typeRef string
 }
 
 func pathTreeDoc(r *Rng) ([]pathRes, string) {
@@ -158,6 +161,21 @@ func pathTreeDoc(r *Rng) ([]pathRes, string) {
 		}
 		res = append(res, pr)
 	}
+	if r.Chance(1, 2) {
+		// typed mode: one value per parameter name, so that equal declarations can share a user type
+		fixed := map[string]string{"x": "101", "y": "102", "z": "103", "id": "104"}
+		for i := range res {
+			if len(res[i].decl) == 0 {
+				continue
+			}
+			for _, n := range res[i].decl {
+				res[i].values[n] = fixed[n]
+			}
+			if r.Chance(3, 4) {
+				res[i].typeRef = "@p_" + strings.Join(res[i].decl, "_")
+			}
+		}
+	}
 	return res, renderPathTree(res, nil)
 }
 
@@ -165,6 +183,8 @@ var regexpBraces = regexp.MustCompile(`\{[^}]*\}`)
 
 func renderPathTree(res []pathRes, extraPathBody map[int]string) string {
 	var b strings.Builder
+	typeBodies := map[string]string{}
+	var typeOrder []string
 	b.WriteString("JSIGHT 0.3\n")
 	for i, pr := range res {
 		body := ""
@@ -177,20 +197,33 @@ func renderPathTree(res []pathRes, extraPathBody map[int]string) string {
 		}
 		if x, ok := extraPathBody[i]; ok {
 			body = x
+		} else if pr.typeRef != "" && body != "" {
+			if _, seen := typeBodies[pr.typeRef]; !seen {
+				typeOrder = append(typeOrder, pr.typeRef)
+			}
+			typeBodies[pr.typeRef] = body
+			body = "@"
 		}
 		if pr.url {
 			b.WriteString("URL " + pr.path + "\n")
-			if body != "" {
+			if body == "@" {
+				b.WriteString("  Path\n  " + pr.typeRef + "\n")
+			} else if body != "" {
 				b.WriteString("  Path\n  " + body + "\n")
 			}
 			b.WriteString("  GET\n    200 any\n")
 		} else {
 			b.WriteString("GET " + pr.path + "\n")
-			if body != "" {
+			if body == "@" {
+				b.WriteString("  Path\n  " + pr.typeRef + "\n")
+			} else if body != "" {
 				b.WriteString("  Path\n  " + body + "\n")
 			}
 			b.WriteString("  200 any\n")
 		}
+	}
+	for _, t := range typeOrder {
+		b.WriteString("TYPE " + t + "\n" + typeBodies[t] + "\n")
 	}
 	return b.String()
 }
@@ -290,6 +323,14 @@ func c13Docs(ctx *Ctx, r *Rng) {
 						break
 					}
 				}
+			}
+		}
+		for _, pr := range res {
+			if pr.typeRef != "" && len(pr.decl) > 0 {
+				// the type is in use by an earlier Path directive; a later one whose path has none of its properties
+				extra := pathRes{path: "/zz9/{nosuch}", decl: pr.decl, values: pr.values, typeRef: pr.typeRef}
+				faults = append(faults, fv{"Path property matching no segment", renderPathTree(append(append([]pathRes{}, res...), extra), nil)})
+				break
 			}
 		}
 		faults = append(faults, fv{"empty {} in a path", doc + "GET /e/{}\n  200 any\n"}, fv{"repeated {name} in one path", doc + "GET /r/{k}/s/{k}\n  200 any\n"})
